@@ -46,6 +46,9 @@ PROBES = [
      {}),
     ('format', 'select \'\' as e, \'abcdefghij\' as v from t',
      {'truncate_strings': 4}),
+    ('split', 'create trigger tr before insert on t for each row begin '
+              'set NEW.end = 1; select r.begin into v; set x = if(a, 1, 2); '
+              'end; select t.loop from t; select 3;', {}),
 ]
 
 
@@ -82,13 +85,21 @@ def observe(sqlparse, probe):
         return 'EXC ' + type(exc).__name__ + ': ' + str(exc)[:80]
 
 
-def observe_all(sqlparse):
-    return json.loads(json.dumps([observe(sqlparse, p) for p in PROBES]))
+def observe_all(sqlparse, order=None):
+    """Observations indexed like PROBES; `order` = the sequence in which
+    the probes are actually run (default: as listed)."""
+    out = [None] * len(PROBES)
+    for i in (order if order is not None else range(len(PROBES))):
+        out[i] = observe(sqlparse, PROBES[i])
+    return json.loads(json.dumps(out))
 
 
-def cmd_ref():
+def cmd_ref(reverse=False):
     import sqlparse
-    print(json.dumps({'obs': observe_all(sqlparse),
+    order = list(range(len(PROBES)))
+    if reverse:
+        order.reverse()
+    print(json.dumps({'obs': observe_all(sqlparse, order),
                       'file': sqlparse.__file__}))
 
 
@@ -253,7 +264,7 @@ if __name__ == '__main__':
         if sys.argv[1] == 'primed':
             cmd_primed(json.loads(sys.argv[2]))
         elif sys.argv[1] == 'ref':
-            cmd_ref()
+            cmd_ref(reverse=len(sys.argv) > 2 and sys.argv[2] == 'reverse')
         elif sys.argv[1] == 'first':
             cmd_first(json.loads(sys.argv[2]))
     except Exception as exc:      # a problem of the harness, not a verdict
